@@ -33,6 +33,9 @@ var Harnesses = map[string]func(){
 	"cont.H_SharedCodeConc":   cont.H_SharedCodeConc,
 	"cont.H_Rebuild":          cont.H_Rebuild,
 	"cont.H_Instances":        cont.H_Instances,
+	"cont.H_ReplacedSibling":  cont.H_ReplacedSibling,
+	"cont.H_TwoGroups":        cont.H_TwoGroups,
+	"smoke.H_Clone":           smoke.H_Clone,
 	"cont.H_ReleaseChild":     cont.H_ReleaseChild,
 	"cont.H_CloseInCallback":  cont.H_CloseInCallback,
 }
